@@ -27,7 +27,13 @@ func treeToJSON(n J, b *bytes.Buffer) {
 		b.Write(s)
 	case "num":
 		if f, ok := n["f"].(string); ok {
-			b.WriteString(f)
+			// as encoding/json writes a float64: exponent form below 1e-6 and from 1e21
+			if x, err := strconv.ParseFloat(f, 64); err == nil {
+				js, _ := json.Marshal(x)
+				b.Write(js)
+			} else {
+				b.WriteString(f)
+			}
 		} else {
 			b.WriteString(strconv.FormatInt(num(n["n"]), 10))
 		}
